@@ -45,7 +45,7 @@ type C20Base struct {
 	CreatedAt time.Time
 	UpdatedAt time.Time
 	Rev       int    `gorm:"default:1"`
-	Memo      string `gorm:"size:50;index"`
+	Memo      string `gorm:"size:50"` // (no index tag: an index declared by a shadowed member keeps its v1 shape by name — changed, not added)
 }
 type C20Plain2 struct {
 	Note  string
@@ -199,7 +199,7 @@ func (g *c20Gen) collide(ver string, hasGModel bool, have map[string]bool) []c20
 		// the owner's index, class and all — observed, not judged) and, unless tricky, `unique` (F33)
 		loser := func(f c20Field) c20Field {
 			f.Tag = c20StripTag(f.Tag, func(lp string) bool {
-				return lp == "index" || lp == "uniqueindex" || strings.HasPrefix(lp, "index:") || strings.HasPrefix(lp, "uniqueindex:") || (!g.tricky && lp == "unique")
+				return lp == "index" || lp == "uniqueindex" || strings.HasPrefix(lp, "index:") || strings.HasPrefix(lp, "uniqueindex:") || ((!g.tricky || g.qual) && lp == "unique")
 			})
 			return f
 		}
